@@ -316,9 +316,15 @@ def r8_ext_arms(ctx, m, me) -> None:
         return {u(s.targets[0]): s.value for s in arm.body if isinstance(s, ast.Assign)}
     vc, va = vals(cu), vals(ae)
     ok_name = u(vc.get("name")) == "f'{op.extension}.{op.op_name}'" and u(va.get("name")) == "op.op_def().qualified_name()"
-    qn = ctx.program.cls("hugr.ext.OpDef").methods.get("qualified_name")
-    src = u(qn) if qn else ""
-    ok_name = ok_name and "f'{ext_name}.{self.name}'" in src and "self._extension.name if self._extension else ''" in src
+    from ..nf import NF, Opaque, ite_normal
+    nf_ = NF(ctx.program)
+    od = ctx.program.cls("hugr.ext.OpDef")
+    try:
+        got_q = ite_normal(nf_.method_nf(od, "qualified_name")[0])
+        want_q = ite_normal(nf_.expr_nf("(f'{self._extension.name}.{self.name}' if self._extension.name else self.name) if self._extension else self.name", od)[0])
+        ok_name = ok_name and got_q == want_q
+    except Opaque:
+        ok_name = False
     ctx.check(ok_name, "C12.R8", "export_node: opaque and resolved ops export the same symbol", m.path, cu.pattern.lineno,
               "Custom exports <extension>.<op_name>; a resolved op must export its definition's qualified name (same string through the resolution correspondence)", cu.pattern)
     ok_args = "[arg.to_model() for arg in op.args]" in u(vc.get("args")) and "[arg.to_model() for arg in op.type_args()]" in u(va.get("args"))
